@@ -3,7 +3,7 @@
 From Coq Require Import Reals ZArith List Bool Lra Lia.
 From PyLib Require Import PyVal PyBuiltins Ideal IdealFacts Whnf PyEval.
 From Gen Require Import M_base M_Angle M_Epoch.
-From Proofs.C07 Require Import C07_defs C07_angle C07_elem.
+From Proofs.C07 Require Import C07_defs C07_angle.
 Import ListNotations.
 Open Scope R_scope.
 
@@ -11,7 +11,7 @@ Lemma jde2000_value : JDE2000_is_2451545.
 Proof.
   unfold JDE2000_is_2451545, g_JDE2000. pyrunZ.
   change (2000 - 1)%Z with 1999%Z. change (1 + 12)%Z with 13%Z.
-  assert (Rfloor (Rlit 36525 (-2) * (IZR 1999 + Rlit 47160 (-1))) = 2452640%Z) as ->
+  assert (Rfloor (Rlit 36525 (-2) * (IZR 1999 + Rlit 47160 (-1))) = 2452653%Z) as ->
     by (apply Rfloor_unique; Rlit_norm; lra).
   assert (Rfloor (Rlit 306001 (-4) * (IZR 13 + Rlit 10 (-1))) = 428%Z) as ->
     by (apply Rfloor_unique; Rlit_norm; lra).
@@ -19,6 +19,6 @@ Proof.
     by (apply Rfloor_unique; Rlit_norm; lra).
   assert (Rfloor (IZR 19 / Rlit 40 (-1)) = 4%Z) as ->
     by (apply Rfloor_unique; Rlit_norm; lra).
-  change (2452640 + 428)%Z with 2453068%Z.
+  change (2452653 + 428)%Z with 2453081%Z.
   Rlit_norm. do 3 f_equal. lra.
 Qed.
